@@ -472,6 +472,9 @@ impl C10 {
                         Ok(r) => r,
                         Err(p) => bail!(format!("panic:add:{kind}"), step, p),
                     };
+                    if std::env::var("VSIM_DEBUG_C10").is_ok() {
+                        eprintln!("step {step}: cost_before={cost_before} declared={declared} truthful={truthful:?} result={res:?} cost_after={}", r1.cost());
+                    }
                     match res {
                         Ok((true, done)) => {
                             d.u64(1 + u64::from(done));
@@ -525,6 +528,17 @@ impl C10 {
                         Ok((false, done)) => {
                             d.u64(3 + u64::from(done));
                             failed_attempts += 1;
+                            // a rejected attempt leaves the running estimate where it was (skipped while
+                            // nothing has been accepted yet: the compressed builder only learns its
+                            // byte cost from the first serialisation, the recorded zero-accepted finding)
+                            let cost_after = r1.cost();
+                            if cost_after != cost_before && !(accepted.is_empty() && !case.interned) {
+                                bail!(
+                                    format!("rejected_attempt_changed_cost_estimate:{kind}"),
+                                    step,
+                                    format!("cost() was {cost_before} before the rejected attempt and is {cost_after} after it")
+                                );
+                            }
                             if cost_before.saturating_add(declared) > k.max_block_cost_clvm {
                                 c.inc("fault.attempt_rejected_by_precheck");
                                 shape.str("rejected_pre");
